@@ -8,6 +8,26 @@ import sys
 root = '/repo'
 out = {}
 meths = {}
+bags = {}
+mbags = {}
+
+
+def token_bag(fn):
+    """identifiers, attribute names and string constants a function body uses (its own name and parameters excluded)"""
+    own = {fn.name} | {a.arg for a in fn.args.posonlyargs + fn.args.args + fn.args.kwonlyargs}
+    out = set()
+    for st in fn.body:
+        for n in ast.walk(st):
+            if isinstance(n, ast.Name) and n.id not in own:
+                out.add(n.id)
+            elif isinstance(n, ast.Attribute):
+                out.add('.' + n.attr)
+            elif isinstance(n, ast.Constant) and isinstance(n.value, str) and 0 < len(n.value) <= 40 and '\n' not in n.value:
+                out.add(repr(n.value))
+    return sorted(out)
+
+
+modnames = {}
 sigs = {}
 bodies = {}
 
@@ -29,6 +49,11 @@ for dirpath, dirs, files in os.walk(os.path.join(root, 'wn')):
             sigs[rel] = {n.name: [a.arg for a in n.args.posonlyargs + n.args.args + n.args.kwonlyargs]
                          for n in tree.body if isinstance(n, ast.FunctionDef) and n.name.startswith('_')}
             bodies[rel] = {n.name: body_digest(n) for n in tree.body if isinstance(n, ast.FunctionDef) and n.name.startswith('_')}
+            modnames[rel] = sorted({t.id for st in tree.body if isinstance(st, (ast.Assign, ast.AnnAssign))
+                                 for t in (st.targets if isinstance(st, ast.Assign) else [st.target]) if isinstance(t, ast.Name)})
+            bags[rel] = {n.name: token_bag(n) for n in tree.body if isinstance(n, ast.FunctionDef) and n.name.startswith('_')}
+            mbags[rel] = {c.name: {m.name: token_bag(m) for m in c.body if isinstance(m, ast.FunctionDef) and m.name.startswith('_')
+                                   and not m.name.startswith('__')} for c in tree.body if isinstance(c, ast.ClassDef)}
             meths[rel] = {c.name: sorted(m.name for m in c.body if isinstance(m, (ast.FunctionDef, ast.AsyncFunctionDef)))
                           for c in tree.body if isinstance(c, ast.ClassDef)}
 here = os.path.join(os.path.dirname(os.path.dirname(os.path.abspath(__file__))), 'wnstatic', 'known_funcs.py')
@@ -47,6 +72,21 @@ with open(here, 'w') as fh:
     for rel, d in sorted(bodies.items()):
         if d:
             fh.write(f'    {rel!r}: {d!r},\n')
+    fh.write('}\n')
+    fh.write('KNOWN_NAMES = {\n')
+    for rel, d in sorted(modnames.items()):
+        if d:
+            fh.write(f'    {rel!r}: {d!r},\n')
+    fh.write('}\n')
+    fh.write('KNOWN_BAGS = {\n')
+    for rel, d in sorted(bags.items()):
+        if d:
+            fh.write(f'    {rel!r}: {d!r},\n')
+    fh.write('}\n')
+    fh.write('KNOWN_METHOD_BAGS = {\n')
+    for rel, d in sorted(mbags.items()):
+        if any(d.values()):
+            fh.write(f'    {rel!r}: { {k: v for k, v in d.items() if v}!r},\n')
     fh.write('}\n')
     fh.write('KNOWN_METHODS = {\n')
     for rel, cl in sorted(meths.items()):
